@@ -184,6 +184,9 @@ def smtlib_member_runs(ck, quick, id0):
     vectors = [list(v) for v in itertools.product(behs, repeat=2)]
     triples = [list(v) for v in itertools.product(behs, repeat=3)]
     vectors += triples if not quick else [t for k, t in enumerate(triples) if (k + ck.seed) % 9 == 0]
+    # members listed as (name, options) pairs with DIFFERENT options: the solver gives up under random seed 13
+    vectors += [["good@7", "good@13"], ["good@13", "good@7"], ["good@13", "good@13"], ["good@7", "good@8", "good@13"],
+                ["good@13", "good@7", "good@9"], ["good@13", "unknown", "good@5"], ["good@5", "crash_checksat", "good@13"]]
     m = fresh_env().formula_manager
     p, q = m.Symbol("p", BOOL), m.Symbol("q", BOOL)
     asserts = [term_io.export(m.Or(p, q)), term_io.export(p)]
@@ -209,7 +212,7 @@ def smtlib_member_runs(ck, quick, id0):
         r["proc"].wait()
         shutil.rmtree(r["dir"], ignore_errors=True)
         vec = r["vec"]
-        beh = ["sat" if b == "good" else ("unknown" if b == "unknown" else "crash_pre") for b in vec]
+        beh = ["unknown" if (b == "unknown" or b.endswith("@13")) else ("sat" if b.startswith("good") else "crash_pre") for b in vec]
         rounds = []
         for rr in (res.get("rounds") or [res]):
             live = by_label.get(rr.get("label", "solve"), asserts)
